@@ -36,6 +36,8 @@ type c11Input struct {
 	Bound  int    `json:"bound"` // MAPITER deviation bound
 	// Inner: grouping clause on the range aggregation itself (avg_over_time ... by/without), "" = none.
 	Inner string `json:"inner,omitempty"`
+	// Big: instead of Series, an input vector of Big series {a=i%3, b=i} with pairwise distinct counts in a scrambled order.
+	Big int `json:"big,omitempty"`
 }
 
 var c11Inner = map[string]*refmodel.Grouping{
@@ -120,6 +122,13 @@ var c11Tmpl = c11Templates()
 
 func c11Build(in c11Input) ([]mockq.Rec, refmodel.Expr, bool) {
 	var data []mockq.Rec
+	for i := 0; i < in.Big; i++ {
+		n := 1 + (i*7)%in.Big // distinct counts 1..Big in scrambled order (7 is coprime to the sizes used)
+		labels := []mockq.KV{{K: "a", V: strconv.Itoa(i % 3)}, {K: "b", V: "s" + strconv.Itoa(i)}}
+		for j := 0; j < n; j++ {
+			data = append(data, mockq.Rec{TS: (c09Base+int64(j%9))*sec + int64(i*100+j), Line: "", Labels: labels})
+		}
+	}
 	for i, si := range in.Series {
 		n := c11Counts[i]
 		labels := append([]mockq.KV(nil), c11Series[si]...)
@@ -224,7 +233,27 @@ func c11Run(r *vkit.Run) {
 			r.State(vkit.J(sub) + strconv.FormatBool(unwrap))
 		}
 	}
-	r.Note("bounds", fmt.Sprintf("input vectors: all non-empty subsets (size <=4) of 6 label sets over a in {1,2}, b in {x,y}, optional c, with pairwise distinct values (counts 1,2,3,5 or unwrapped -2.5,0.5,7,-1); %d query templates (7 operators x 9 groupings, topk/bottomk k in {1,2,5} x 5 groupings, sort/sort_desc, 20 nestings up to depth 3); instant and 3-step range; map-order deviation bound %d", len(c11Tmpl), bound))
+	// vectors larger than any small-slice special case of the sorting / heap code
+	for _, big := range []int{13, 20, 33} {
+		for _, q := range []string{"sort", "sort_desc", "topk(5)", "bottomk(5) by(a)", "topk(2) by(a)", "sort(sum by(a))", "sum by(a)", "max", "count by(a)", "topk(1, sum by(a))"} {
+			idx++
+			if !r.Mine(idx) || r.Stop() {
+				continue
+			}
+			found := false
+			for _, t := range c11Tmpl {
+				if t.name == q {
+					found = true
+				}
+			}
+			if !found {
+				r.HarnessError("unknown template %q", q)
+			}
+			c11Check(r, c11Input{Big: big, Query: q, Bound: 0}, nil)
+			r.NonTrivial()
+		}
+	}
+	r.Note("bounds", fmt.Sprintf("input vectors: all non-empty subsets (size <=4) of 6 label sets over a in {1,2}, b in {x,y}, optional c, with pairwise distinct values (counts 1,2,3,5 or unwrapped -2.5,0.5,7,-1), plus vectors of 13, 20 and 33 series for sort/topk/bottomk; %d query templates (7 operators x 9 groupings, topk/bottomk k in {1,2,5} x 5 groupings, sort/sort_desc, 20 nestings up to depth 3); instant and 3-step range; map-order deviation bound %d", len(c11Tmpl), bound))
 }
 
 func c11Replay(r *vkit.Run, v vkit.Violation) *vkit.Violation {
